@@ -1,7 +1,8 @@
 #!/bin/bash
+VROOT=$(cd "$(dirname "$0")/.." && pwd)
 # seed_all.sh <property|all> [tier]: run the owning check against every seeded change of a property.
 p=${1:-all}; tier=${2:-quick}
-cd /verif
+cd "$VROOT"
 for d in seeded/C*-m*; do
   id=$(basename $d)
   case "$p" in all) ;; *) [[ $id == $p-* ]] || continue;; esac
